@@ -368,5 +368,5 @@ func Truncations(s string, openers []string, emit func(string)) {
 	}
 }
 
-var SQLOpeners = []string{"'", "\"", "`", "/*", "--", "#", "$a$", "$$", "q'(", "nq'[", "u&'", "n'", "e'", "x'", "b'", "0x", "1e", "1e+", "@", "@@", "@`", "[", "\\", "{", "1.", "$"}
-var HTMLOpeners = []string{"<", "</", "<!", "<!-", "<!--", "<!---", "<![CDATA[", "<![CDATA[]", "<![CDATA[]]", "<%", "<%%", "<?", "<a", "<a ", "<a b", "<a b=", "<a b='", "<a b=\"", "<a b=`", "&", "&#", "&#x", "&#1", "&#x1", "<!doctype", "<a/", "-", "--", "--!"}
+var SQLOpeners = []string{"'", "\"", "`", "/*", "--", "#", "$a$", "$$", "q'(", "nq'[", "u&'", "n'", "e'", "x'", "b'", "0x", "1e", "1e+", "@", "@@", "@`", "[", "\\", "{", "1.", "$", " ", "\n", "\x00", "\xa0", "/*M!", "\\*="}
+var HTMLOpeners = []string{"<", "</", "<!", "<!-", "<!--", "<!---", "<![CDATA[", "<![CDATA[]", "<![CDATA[]]", "<%", "<%%", "<?", "<a", "<a ", "<a b", "<a b=", "<a b='", "<a b=\"", "<a b=`", "&", "&#", "&#x", "&#1", "&#x1", "<!doctype", "<a/", "-", "--", "--!", " ", "\n", "\r\n", "\x00", "\t", ">", "?>", "\r-"}
